@@ -44,6 +44,12 @@ func (s *Store) Decode(c cid.Cid) (*BlockInfo, error) {
 	}
 	bi.IsPB = true
 	nb := dagpb.Type.PBNode.NewBuilder()
+	if s.PBEnvelope > 0 {
+		if len(raw) < s.PBEnvelope {
+			return nil, fmt.Errorf("model: block %s is shorter than the store's dag-pb envelope", c)
+		}
+		raw = raw[s.PBEnvelope:] // (the link system's dag-pb codec frames its blocks)
+	}
 	if err := dagpb.DecodeBytes(nb, raw); err != nil {
 		return nil, fmt.Errorf("model: decode %s: %w", c, err)
 	}
